@@ -14,12 +14,13 @@ def trace(t, summ=None, depth=0):
     if t[0] == "mut":
         eff = t[2]
         items = trace(t[1], summ, depth + 1)
+        path = tuple(t[3]) if len(t) > 3 and t[3] else ()
         if eff[0] == "call":
-            items.append(("op", last(eff[1]), eff[2], eff))
+            items.append(("op", last(eff[1]), eff[2], eff, path))
         elif eff[0] == "assign":
-            items.append(("assign", eff[1], (eff[2],), eff))
+            items.append(("assign", eff[1], (eff[2],), eff, path))
         else:
-            items.append(("op", "?", (), eff))
+            items.append(("op", "?", (), eff, path))
         return items
     if t[0] == "mu":
         lid = t[1]
@@ -65,3 +66,19 @@ def flat(items, names):
         elif it[0] in ("cond", "opaque"):
             out.append(it)
     return out
+
+
+def as_pairs(x):
+    """A collection of (key, value) pairs built from a source: (source, condition, key, value) or None.
+    collectmap(S, C, K, V) | S.map(|e| (K, V)) | a map itself (its own pairs)."""
+    import norm
+    x = norm.strip_adapters(x)
+    while isinstance(x, tuple) and x and x[0] == "call" and isinstance(x[1], str) and last(x[1]) in ("clone", "to_owned", "drain", "into_iter", "iter") and len(x[2]) == 1:
+        x = norm.strip_adapters(x[2][0])
+    if x[0] == "collectmap":
+        return x[1], x[2], x[3], x[4]
+    if x[0] == "hof" and x[1] == "map" and x[3][0] == "tuple" and len(x[3][1]) == 2:
+        return norm.strip_adapters(x[2]), ("lit", True), x[3][1][0], x[3][1][1]
+    if x[0] in ("param", "field"):
+        return x, ("lit", True), ("tproj", ("elem", x), 0), ("tproj", ("elem", x), 1)
+    return None
